@@ -216,20 +216,39 @@ def selectAgg (q : CQuery) (groupIdx : List Nat) : Except String (List Row) :=
 
 /-! ### ORDER BY: multi-pass stable sort -/
 
-/-- rank of a value inside sort keys: NULL (the `NullType` stand-in) is smaller than anything -/
-def keyLt (a b : Value) : Bool :=
-  match a, b with
-  | .null, .null => false
-  | .null, _ => true
-  | _, .null => false
-  | a, b => (pyLt? a b).getD false
+/-- sort-key view of a value: the comparable classes of Python values that beanquery sorts.
+    NULL (the `NullType` stand-in) sorts before everything. -/
+inductive SortKey
+  | null | num (d : Dec) | str (s : String) | date (d : Date) | other
+  deriving Repr, Inhabited
 
-def keyEqv (a b : Value) : Bool :=
-  match a, b with
-  | .null, .null => true
-  | .null, _ => false
-  | _, .null => false
-  | a, b => pyEq a b
+def sortKey : Value → SortKey
+  | .null => .null
+  | .int i => .num (Dec.ofInt i)
+  | .bool b => .num (Dec.ofInt (if b then 1 else 0))
+  | .dec d => .num d
+  | .str s => .str s
+  | .date d => .date d
+  | _ => .other
+
+def SortKey.rank : SortKey → Nat
+  | .null => 0 | .num _ => 1 | .str _ => 2 | .date _ => 3 | .other => 4
+
+/-- Inside one class this is Python's `<`; *across* classes Python raises TypeError (see
+    `sortable`), and the model orders by class only to stay a total preorder. -/
+def SortKey.lt : SortKey → SortKey → Bool
+  | .num a, .num b => Dec.lt a b
+  | .str a, .str b => decide (a < b)
+  | .date a, .date b => a.lt b
+  | a, b => decide (a.rank < b.rank)
+
+def classRank (v : Value) : Nat := (sortKey v).rank
+
+/-- `<` on sort keys -/
+def keyLt (a b : Value) : Bool := (sortKey a).lt (sortKey b)
+
+/-- `==` on sort keys (used by tuple comparison to find the first differing position) -/
+def keyEqv (a b : Value) : Bool := !keyLt a b && !keyLt b a
 
 /-- Python tuple `<` on `nullitemgetter(*indexes)` keys -/
 def tupleLt (idxs : List Nat) (a b : Row) : Bool :=
@@ -278,7 +297,15 @@ def uniquifyAux : List Row → List Row → List Row
 
 def uniquify (rows : List Row) : List Row := uniquifyAux [] rows
 
+/-- every ORDER BY key column holds values of one comparable class (plus NULLs); otherwise
+    `list.sort` raises TypeError as soon as it compares two of them -/
+def sortable (spec : List (Nat × Bool)) (rows : List Row) : Bool :=
+  spec.all (fun k =>
+    let classes := (rows.map (fun r => classRank (r.getD k.1 .null))).filter (· != 0)
+    rows.length ≤ 1 || (classes.all (fun c => c != 4 && c == classes.headD c)))
+
 def postProcess (q : CQuery) (rows : List Row) : Except String (List Row) :=
+  if (match q.orderSpec with | some spec => !sortable spec rows | none => false) then .error "TypeError" else
   let rows := match q.orderSpec with | some spec => orderBy spec rows | none => rows
   let rows := rows.map (project (resultIndexes q.targets))
   if q.distinct && !(rows.all (fun r => r.all hashable)) then .error "TypeError" else
